@@ -386,7 +386,12 @@ func installResolver(f func(addr string) ([]string, error, time.Duration)) *rdns
 			select {
 			case <-time.After(d):
 			case <-ctx.Done():
-				return nil, ctx.Err()
+				// what net.Resolver hands back when the lookup's context ends: a *net.DNSError, "temporary" in the
+				// net.Error sense when it was the deadline
+				if errors.Is(ctx.Err(), context.DeadlineExceeded) {
+					return nil, &net.DNSError{Err: "i/o timeout", Name: addr, IsTimeout: true, UnwrapErr: ctx.Err()}
+				}
+				return nil, &net.DNSError{Err: "operation was canceled", Name: addr, UnwrapErr: ctx.Err()}
 			}
 		}
 		return names, err
